@@ -22,6 +22,7 @@ import BufrModel.Drv.ViewOp
 import BufrModel.Drv.StreamOp
 import BufrModel.Drv.WidthsOp
 import BufrModel.Drv.QueryOp
+import BufrModel.Drv.TextOp
 open Lean Bufr.Drv
 
 /-- stateless operations: one line per op -/
@@ -73,6 +74,7 @@ def statefulOps : List (String × (DrvState → Json → J (DrvState × Json))) 
   ("dec-subsets", opDecSubsets) ::
   ("query", opQuery) ::
   ("paths", opPaths) ::
+  ("text", opText) ::
   []
 
 def dispatch (st : DrvState) (j : Json) : J (DrvState × Json) := do
